@@ -14,6 +14,7 @@ import os
 import gridlib as gl
 import rltie
 import c01global
+import c01dag
 import c02bridge
 import vlib
 
@@ -233,6 +234,9 @@ def run(res, tier, seed, replay_script=None):
     proof_broken = (not props["ok"]) or bool(res.coverage["forbidden_tokens"]) or (not props_up["ok"])
     # Global grids with nested rules: the combination surrogate reproduces the values at every grid point (unbounded; Properties_C01_global.v)
     c01global.run(res)
+    if replay_script is None:
+        # computeDAGup (links to the nearest present ancestor, is_complete = choice of the Kronecker path), levels and surpluses on given point sets: white-box tie
+        c01dag.run(res, tier, seed)
     # the weights form the code assembles (sum of w(t) x tensor rule) equals the difference form of the theorems (Properties_C02_bridge.v)
     c02bridge.run(res)
     runner = vlib.ocaml_runner("corefast") if ok_ext else None
@@ -257,7 +261,7 @@ def run(res, tier, seed, replay_script=None):
         scripts["bigwav"] = ["case bigwav", "make wavelet g 1 1 10 1", "load g smooth", "dump g meta pidx points values", "evalpts g"]
         specs["bigwav2"] = {"family": "wavelet", "dims": 2, "outs": 1, "order": 1, "depth": 6}
         scripts["bigwav2"] = ["case bigwav2", "make wavelet g 2 1 6 1", "load g smooth", "dump g meta pidx points values", "evalpts g"]
-        for w in WITNESS:
+        for w in (WITNESS if tier == "thorough" else [w for w in WITNESS if w[0] in ("w-semi2-fds", "w-semi3-classic", "w-semi3-stable", "w-localpb3")]):
             specs[w[0]], scripts[w[0]] = witness_script(*w)
     lines = [l for cid in scripts for l in scripts[cid]]
     rc, cases, so, se = gl.run_scripts(drv, lines, wd, "hist", timeout=1500, case_timeout=20)
@@ -521,7 +525,7 @@ def run(res, tier, seed, replay_script=None):
             "why": "updateSurpluses follows computeDAGup's links to the nearest present ancestor; with a parent missing, an ancestor whose basis does not vanish at "
                    "the node can be unreachable (semi-localp: the step-parent of points 3/4 is dropped once the walk has passed them). The faithful model "
                    "Model/LocalGridUp.v computes the same surpluses and its certificate is false on these sets"},
-        "fixed_witness_histories": [w[0] for w in WITNESS],
+        "fixed_witness_histories": [w[0] for w in WITNESS if w[0] in specs],
     })
     res.assumptions = ["floating-point rounding enters only through the tolerances (relative to max(1, max|value|))",
                        "Global/Sequence/Wavelet/Fourier: no mechanistic model; the executable statement is evaluated on their observations"]
